@@ -14,7 +14,10 @@ Oracles (one failure key each)
   history                      : differential – after any short sequence of gradient / spatial_derivatives / __call__ /
                                  set_hyperparameters calls on ONE regressor every result equals that of a fresh regressor with the
                                  same data and the current hyper-parameters (history/<kernel>/<method>/<output>.../<history class>)
-Kernels without ``gradient_terms`` must raise NotImplementedError (accepted) or be correct.
+  inplace                      : differential - the caller re-uses ONE query array and ONE hyper-parameter array, overwriting them in
+                                 place between calls and passing the same objects again (inplace/<kernel>/<method>/<output>.../<class>)
+Kernels without ``gradient_terms`` (RQ, ChangePoint, every composite: SE+SE, SE+SE+WN, RQ+SE, SE+RQ, CP, CP+WN, SE+WN) must raise
+NotImplementedError (accepted) or be correct against the reference (sum of the component derivative kernels).
 Tolerances: see tol_ref / fd_tolerance – c*eps*cond(G)*scale, the scale taken from the reference; the truncation
 error of the difference stencil is computed by applying the same stencil to the mpmath reference function.
 """
@@ -642,7 +645,7 @@ def inplace_contents(X, ls, form):
 # query and data, mean function) with the old one (alpha, L) - e.g. negative gradient variances.  Repair:
 # proposed_fixes/C16_hyperparameters-copied.patch.  The op is enumerated only when this switch is on (to be switched on
 # with the fix: commit; until then the limitation is listed among the assumptions).
-BEHIND_BACK = False
+BEHIND_BACK = True
 
 
 def inplace_alphabet(behind_back=False):
